@@ -7,6 +7,7 @@
 From Coq Require Import ZArith Bool Ascii String List Uint63.
 From Verif Require Import lib.Calendar lib.RegexSub lib.PyStr lib.DatesBase gen.DatesGen model.Dates.
 Import ListNotations.
+Local Open Scope string_scope.
 Open Scope Z_scope.
 
 (* ------------------------------------------------------------------ SDMX strings *)
